@@ -80,6 +80,17 @@ def strs_utf8(t):
     return True
 
 
+def exact_plain(v):
+    """plain data by exact type: a list / dict subclass that carries library objects (a proxy) is not plain data"""
+    if v is None or type(v) in (bool, int, float, str):
+        return True
+    if type(v) is list:
+        return all(exact_plain(x) for x in v)
+    if type(v) is dict:
+        return all(type(k) is str and exact_plain(x) for k, x in v.items())
+    return False
+
+
 def plain_but_keys(v):
     """plain except that maps may have non-string scalar keys"""
     if v is None or isinstance(v, (bool, int, float, str)):
@@ -102,7 +113,7 @@ def nonplain_positions(sk, tree, prefix=""):
             typed.append(p)
             continue
         if sf is None:
-            if not c05.plain(v):
+            if not exact_plain(v):
                 untyped.append(p)
             continue
         if sf["s"] in ("sub", "ctype") and isinstance(v, dict):
@@ -115,7 +126,7 @@ def nonplain_positions(sk, tree, prefix=""):
                     a, b = nonplain_positions(sf["schema"], it, "%s[%d]." % (p, i))
                     typed += a
                     untyped += b
-        elif not c05.plain(v):
+        elif not exact_plain(v):
             f = sf.get("field") or {}
             if is_typed(f):
                 typed.append(p + (":non-string-dict-key" if plain_but_keys(v) else ""))
@@ -292,7 +303,7 @@ def oracle(res, case, sk, ops, impl, live, tmp, keypath):
     if exercised and encoded_deep(sk, cfg):
         res.nontrivial.add(stable([case["schema"], case["ops"]]))
     # model: load_tree of this tree into a fresh configuration
-    if c05.plain(tree):
+    if exact_plain(tree):
         rl = [{"op": "load_tree", "tree": copy.deepcopy(tree), "validate": True}]
         impl2, _ = H.run_impl(sk, rl, tmp, keypath, tape=P.tape)
         vals = [tree] + H.schema_values(sk)
